@@ -52,6 +52,21 @@ func u64s(ids []uint64) string {
 	return strings.Join(parts, ",")
 }
 
+// noteRollback: what Rollback(t) has to restore — the allocating transaction of every page that
+// t had freed (pages allocated by t itself are forgotten with it).
+func noteRollback(expect map[uint64]uint64, before flState, t uint64) {
+	for id, a := range expect {
+		if a == t {
+			delete(expect, id)
+		}
+	}
+	for _, e := range before.pend {
+		if e[0] == t && e[2] != 0 && e[2] != t {
+			expect[e[1]] = e[2]
+		}
+	}
+}
+
 type flProg struct {
 	Kind string
 	Ops  []flOp
@@ -134,6 +149,9 @@ func runFLProg(p flProg, rep *Report) (in []string, want []string, monitorFail s
 			monitorFail = fmt.Sprintf(format, a...)
 		}
 	}
+	// rollbackRestores (allocator bookkeeping): the allocating transaction a page carried when a
+	// later-aborted transaction freed it; the next Free of that page must carry it again
+	expectAlloc := map[uint64]uint64{}
 	var commitImg []byte      // image written at the last "commit" (reload source)
 	var commitState *flState  // allocator state at that point
 	for _, o := range p.Ops {
@@ -149,6 +167,7 @@ func runFLProg(p flProg, rep *Report) (in []string, want []string, monitorFail s
 		before := getFLState(v)
 		switch o.K {
 		case "init":
+			expectAlloc = map[uint64]uint64{}
 			call(func() { v.Init(append([]uint64(nil), o.IDs...)) })
 			in = append(in, o.String())
 		case "alloc":
@@ -161,6 +180,9 @@ func runFLProg(p flProg, rep *Report) (in []string, want []string, monitorFail s
 				after := getFLState(v)
 				as := after.freeSet()
 				if id != 0 {
+					for q := id; q < id+o.A; q++ {
+						delete(expectAlloc, q)
+					}
 					if id <= 1 {
 						fail("never01: Allocate returned page %d", id)
 					}
@@ -204,6 +226,16 @@ func runFLProg(p flProg, rep *Report) (in []string, want []string, monitorFail s
 				for _, e := range after.pend {
 					pend[e[1]] = e[0]
 				}
+				for _, e := range after.pend {
+					if e[0] == o.T && e[1] == o.A {
+						if w, ok := expectAlloc[o.A]; ok && e[2] != w {
+							fail("rollbackRestores: page %d is freed again after the transaction that had freed it was rolled back; it now carries allocating txid %d, before the aborted free it carried %d (the rollback did not restore the allocator state)", o.A, e[2], w)
+						}
+					}
+				}
+				for q := o.A; q <= o.A+o.B; q++ {
+					delete(expectAlloc, q)
+				}
 				for q := o.A; q <= o.A+o.B; q++ {
 					if as[q] {
 						fail("freeNotReusable: page %d directly free after Free", q)
@@ -217,6 +249,7 @@ func runFLProg(p flProg, rep *Report) (in []string, want []string, monitorFail s
 				}
 			}
 		case "rollback":
+			noteRollback(expectAlloc, before, o.T)
 			call(func() { v.Rollback(o.T) })
 			in = append(in, o.String())
 		case "rbreload":
@@ -224,6 +257,7 @@ func runFLProg(p flProg, rep *Report) (in []string, want []string, monitorFail s
 			if commitImg == nil {
 				continue
 			}
+			noteRollback(expectAlloc, before, o.T)
 			call(func() { v.Rollback(o.T) })
 			in = append(in, fmt.Sprintf("rollback %d", o.T))
 			if panicked {
